@@ -214,14 +214,18 @@ def _observe_record(case: dict) -> dict:
     inp = case["input"]
     event = {"id": case["id"], "op": "record", "strands": inp["strands"],
              "genes": [[_domrec(*dom) for dom in doms] for doms in inp["genes"]], "motifs": inp["motifs"]}
-    try:
+    names = ["g1", "g2", "g3"]
+
+    def fresh_record():
         record = B.record(3 * 1200, False)
-        names = ["g1", "g2", "g3"]
         for pos, (name, strand) in enumerate(zip(names, inp["strands"])):
             record.add_cds_feature(DummyCDS(start=pos * 1200 + 30, end=pos * 1200 + 1110, strand=strand, locus_tag=name,
                                             translation="M" + "A" * 359))
         record.add_subregion(SubRegion(FeatureLocation(0, 3600, 1), tool="verif", label="all"))
         record.create_regions()
+        return record
+    try:
+        record = fresh_record()
         domains = {name: _hits(doms) for name, doms in zip(names, inp["genes"]) if doms}
         motifs = {name: [HMMResult("NRPS-A_a3", 1, 5, 1e-5, 20.)] for name, has in zip(names, inp["motifs"]) if has}
         with mock.patch.object(domain_identification, "find_domains", return_value=domains), \
@@ -230,13 +234,25 @@ def _observe_record(case: dict) -> dict:
                 mock.patch.object(domain_identification, "get_database_path", return_value=""):
             results = domain_identification.generate_domains(record)
         index = {name: pos + 1 for pos, name in enumerate(names)}
-        by_name = {cds.get_name(): res for cds, res in results.cds_results.items()}
-        event["mods"] = [[{"complete": bool(m.is_complete()), "genes": [index[comp.locus] for comp in m.components]}
-                          for m in (by_name[name].modules if name in by_name else [])] for name in names]
+        def modules_of(found):
+            table = {cds.get_name(): res for cds, res in found.cds_results.items()}
+            return [[{"complete": bool(m.is_complete()), "genes": [index[comp.locus] for comp in m.components]}
+                     for m in (table[name].modules if name in table else [])] for name in names]
+        event["mods"] = modules_of(results)
         event["exc"] = ""
     except Exception as err:  # pylint: disable=broad-except
         event["exc"] = type(err).__name__
         event["mods"] = [[], [], []]
+        event["again"] = {"exc": "", "mods": [[], [], []]}
+        return event
+    # the same results saved and loaded again for the same record (what --reuse-results does with them)
+    try:
+        import json  # pylint: disable=import-outside-toplevel
+        saved = json.loads(json.dumps(results.to_json()))
+        loaded = domain_identification.NRPSPKSDomains.from_json(saved, fresh_record())
+        event["again"] = {"exc": "", "mods": modules_of(loaded)} if loaded is not None else {"exc": "Discarded", "mods": [[], [], []]}
+    except Exception as err:  # pylint: disable=broad-except
+        event["again"] = {"exc": type(err).__name__, "mods": [[], [], []]}
     return event
 
 
